@@ -402,6 +402,25 @@ func apply(e *secp256k1.Element, st Step, cur ref.Point) (*secp256k1.Element, er
 		c := *e
 		e.Double().Negate()
 		return &c, nil
+	case "valcopy-a":
+		// the element is looked at (whatever that caches), copied by Go value copy, and the ORIGINAL is negated in place: the
+		// copy keeps the value in every respect
+		if _, err := apply(e, Step{Op: "observe"}, cur); err != nil {
+			return nil, err
+		}
+		c := *e
+		e.Negate()
+		return &c, nil
+	case "valcopy-b":
+		// ... and the other way round: the COPY is negated, the original is used
+		if _, err := apply(e, Step{Op: "observe"}, cur); err != nil {
+			return nil, err
+		}
+		_ = secp256k1.Base().Subtract(e) // (the element also served as an argument)
+		c := *e
+		c.Negate()
+		_ = c.Encode()
+		return e, nil
 	case "copy":
 		return e.Copy(), nil
 	case "set":
@@ -473,7 +492,7 @@ func Build(s Spec) (*Built, error) {
 var observeVerbs = "%v %+v %s %x %d"
 
 var (
-	stepsAny  = []string{"addO", "Oadd", "subO", "addsub", "subadd", "dblsub", "negneg", "decenc", "decunc", "selfdec", "selfdecunc", "copy", "set", "structcopy", "observe", "observe", "rescale", "rescale", "target", "target"}
+	stepsAny  = []string{"addO", "Oadd", "subO", "addsub", "subadd", "dblsub", "negneg", "decenc", "decunc", "selfdec", "selfdecunc", "copy", "set", "structcopy", "valcopy-a", "valcopy-b", "observe", "observe", "rescale", "rescale", "target", "target"}
 	stepsSlow = []string{"dblhalf", "mulinv"}
 	stepsID   = []string{"observe", "id:p-p", "id:p+negp", "id:mul0", "id:kn-k", "id:o-o", "id:decode00", "id:mulnil", "id:wb", "id:wb"}
 )
